@@ -214,19 +214,25 @@ def validate_trace(work, module, cfg_text, trace, verdicts, extra_env=None, time
     return vs[0], vs[1:], tlc_stats(out)
 
 
+# the extra (not listed) conformance suites keep their own findings and evidence
+KNOWN_FILE = "known_findings.json"
+EVIDENCE_DIR = "evidence"
+REPLAY_DIR = "replays"
+
+
 def load_known():
-    with open(os.path.join(VERIF, "known_findings.json")) as fh:
+    with open(os.path.join(VERIF, KNOWN_FILE)) as fh:
         return json.load(fh)
 
 
 def write_evidence(prop, tier, seed, coverage, wall, violations, assumptions=None, level="model_checking"):
-    os.makedirs(os.path.join(VERIF, "evidence"), exist_ok=True)
+    os.makedirs(os.path.join(VERIF, EVIDENCE_DIR), exist_ok=True)
     ev = {
         "property_id": prop, "tier": tier, "seed": seed, "level": level,
         "coverage": coverage, "assumptions": assumptions or [], "wall_s": round(wall, 2),
         "violations": violations,
     }
-    path = os.path.join(VERIF, "evidence", prop + ".json")
+    path = os.path.join(VERIF, EVIDENCE_DIR, prop + ".json")
     tmp = path + ".tmp"
     with open(tmp, "w") as fh:
         json.dump(ev, fh, indent=1, sort_keys=True)
@@ -237,7 +243,7 @@ def write_evidence(prop, tier, seed, coverage, wall, violations, assumptions=Non
 
 def save_replay(prop, name, obj_lines):
     """Keep a failing case where the VIOLATION line can point at it."""
-    d = os.path.join(VERIF, "replays")
+    d = os.path.join(VERIF, REPLAY_DIR)
     os.makedirs(d, exist_ok=True)
     safe = re.sub(r"[^A-Za-z0-9_.-]", "_", name)[:80]
     path = os.path.join(d, "%s-%s.ndjson" % (prop, safe))
